@@ -56,6 +56,13 @@ def run(chk, facts_dir, tier):
         return None
 
     n = report_audit(chk, "R24.1", prog, b, {}, extra)
+    # private helpers of distribute_partition in the same crate are part of the audited function
+    for bi, t in b.calls():
+        hp = b.callee(t) or b.callee_decl(t) or ""
+        hb = prog.bodies.get(hp)
+        if hb is not None and hp.startswith("sierradb_topology::") and hp != FN and "manager" not in hp:
+            chk.analysed(hp)
+            n += report_audit(chk, "R24.1", prog, hb, {})
     chk.floor("R24.1", n, 8)
     # every pushed element is a remainder by num_partitions
     for bi, t in pushes:
